@@ -24,6 +24,9 @@ func (e *executor[R]) PreExecute(exec policy.ExecutionInternal[R]) *common.Polic
 				ExecutionAttempt: exec,
 			})
 		}
+		if canceled, cancelResult := exec.IsCanceledWithResult(); canceled && !errors.Is(err, ErrFull) {
+			return cancelResult
+		}
 		return internal.FailureResult[R](err)
 	}
 	return nil
